@@ -58,7 +58,7 @@ def generate(tier, seed):
             n = rnd.choice([5, 10, 30, 100]) if tier != "quick" else rnd.choice([5, 10, 30])
             steps = []
             for _ in range(n):
-                steps += [rnd.choice(al)] + qs + ["BR"] + qs
+                steps += [pick_op(rnd, al, dom)] + qs + ["BR"] + qs
             lines = initial_lines(rnd, dom, True)
             cases.append(case("eng", sp, adapter_M(lines), "-", steps))
             dist["random"] += 1
